@@ -1,5 +1,4 @@
 PROP = dict(
-    unclaimed=True,
     module="M3d.Props.C19",
     corr=dict(quick=500, thorough=2500),
     gen=["ReflectAmount"],
